@@ -29,8 +29,10 @@ pub fn run(ctx: &mut Ctx) {
     ctx.run_cases("estimator", n, false, |ctx, rng, idx| {
         let nstate = rng.range(1, 7);
         let nlab = rng.range(1, (200 / nstate).max(1));
-        let nst = nstate * nlab;
-        let kind = idx % 6;
+        // (one case in eight: a sequence that is not a whole number of labels — the number of
+        // states per label only matters to the aligned path)
+        let nst = if idx % 8 == 5 { (nstate * nlab + rng.range(1, 6)).min(200) } else { nstate * nlab };
+        let kind = idx % 7;
         let proto = MeanVari(rng.uniform(0.2, 60.0), rng.log_uniform(1e-3, 400.0));
         let params: Vec<MeanVari> = (0..nst)
             .map(|_| match kind {
@@ -38,6 +40,9 @@ pub fn run(ctx: &mut Ctx) {
                 1 => MeanVari(rng.uniform(0.2, 3.0), rng.log_uniform(1e-3, 1.0)),
                 2 => MeanVari((rng.range(1, 30) as f64) + 0.5, rng.log_uniform(1e-3, 400.0)), // x.5 means
                 5 => MeanVari(rng.uniform(0.2, 1.45), rng.log_uniform(1e-3, 2.0)), // every state lasts one frame at speed 1
+                // means a hair below / above a rounding tie (far more than f64 rounding, less
+                // than single precision resolves)
+                6 => MeanVari((rng.range(0, 60) as f64 + 0.5) * (1.0 + *rng.pick(&[-1e-9, -1e-8, -3e-8, 1e-8, -2e-10, 3e-8])), rng.log_uniform(1e-3, 400.0)),
                 _ => MeanVari(rng.uniform(0.2, 60.0), rng.log_uniform(1e-3, 400.0)),
             })
             .collect();
